@@ -4,26 +4,977 @@ parent list and every nesting.
 -/
 import CambrianModel.Model.Crossover
 namespace Cambrian
+namespace Cross
+
+/-! ### sorted key lists -/
+
+theorem sortedNat_cons' (a : Nat) : ∀ (l : List Nat), sortedNat (a :: l) = true ↔ ((∀ x ∈ l, a < x) ∧ sortedNat l = true)
+  | [] => by simp [sortedNat]
+  | b :: r => by
+      have ih := sortedNat_cons' b r
+      simp only [sortedNat, Bool.and_eq_true, decide_eq_true_eq, List.mem_cons, forall_eq_or_imp]
+      constructor
+      · intro ⟨h1, h2⟩
+        refine ⟨⟨h1, fun x hx => ?_⟩, h2⟩
+        have := (ih.1 h2).1 x hx
+        omega
+      · intro ⟨⟨h1, _⟩, h3⟩
+        exact ⟨h1, h3⟩
+
+theorem sortedStr_cons' (a : String) : ∀ (l : List String), sortedStr (a :: l) = true ↔ ((∀ x ∈ l, a < x) ∧ sortedStr l = true)
+  | [] => by simp [sortedStr]
+  | b :: r => by
+      have ih := sortedStr_cons' b r
+      simp only [sortedStr, Bool.and_eq_true, decide_eq_true_eq, List.mem_cons, forall_eq_or_imp]
+      constructor
+      · intro ⟨h1, h2⟩
+        refine ⟨⟨h1, fun x hx => ?_⟩, h2⟩
+        exact String.lt_trans h1 ((ih.1 h2).1 x hx)
+      · intro ⟨⟨h1, _⟩, h3⟩
+        exact ⟨h1, h3⟩
+
+theorem sortedNat_nodup : ∀ (l : List Nat), sortedNat l = true → l.Nodup
+  | [], _ => List.nodup_nil
+  | a :: l, h => by
+      have h' := (sortedNat_cons' a l).1 h
+      rw [List.nodup_cons]
+      refine ⟨fun hm => ?_, sortedNat_nodup l h'.2⟩
+      have := h'.1 a hm
+      omega
+
+/-- strictly sorted lists with the same members are equal -/
+theorem sortedNat_ext : ∀ (l₁ l₂ : List Nat), sortedNat l₁ = true → sortedNat l₂ = true →
+    (∀ x, x ∈ l₁ ↔ x ∈ l₂) → l₁ = l₂
+  | [], [], _, _, _ => rfl
+  | [], b :: r, _, _, h => by have := (h b).2 (by simp); simp at this
+  | a :: l, [], _, _, h => by have := (h a).1 (by simp); simp at this
+  | a :: l, b :: r, h1, h2, h => by
+      have h1' := (sortedNat_cons' a l).1 h1
+      have h2' := (sortedNat_cons' b r).1 h2
+      have hab : a = b := by
+        have ha := (h a).1 (by simp)
+        have hb := (h b).2 (by simp)
+        simp only [List.mem_cons] at ha hb
+        rcases ha with ha | ha
+        · exact ha
+        · rcases hb with hb | hb
+          · exact hb.symm
+          · have := h1'.1 b hb
+            have := h2'.1 a ha
+            omega
+      subst hab
+      congr 1
+      refine sortedNat_ext l r h1'.2 h2'.2 fun x => ⟨fun hx => ?_, fun hx => ?_⟩
+      · have := (h x).1 (by simp [hx])
+        simp only [List.mem_cons] at this
+        rcases this with rfl | this
+        · have := h1'.1 x hx; omega
+        · exact this
+      · have := (h x).2 (by simp [hx])
+        simp only [List.mem_cons] at this
+        rcases this with rfl | this
+        · have := h2'.1 x hx; omega
+        · exact this
+
+/-- a duplicate-free list inside another list of at most the same length has the same members -/
+theorem subset_of_length_ge (S U : List Nat) (hS : S.Nodup) (hsub : ∀ x ∈ S, x ∈ U) (hlen : U.length ≤ S.length) :
+    ∀ x ∈ U, x ∈ S := by
+  intro k hk
+  apply Classical.byContradiction
+  intro hkS
+  have : S.length ≤ (U.erase k).length := by
+    apply List.Nodup.length_le_of_subset hS
+    intro x hx
+    have hne : x ≠ k := fun e => hkS (e ▸ hx)
+    exact (List.mem_erase_of_ne hne).2 (hsub x hx)
+  rw [List.length_erase_of_mem hk] at this
+  have : 0 < U.length := List.length_pos_of_mem hk
+  omega
+
+theorem nodup_eraseDups : ∀ (n : Nat) (l : List Nat), l.length ≤ n → l.eraseDups.Nodup
+  | _, [], _ => by simp
+  | 0, a :: l, h => by simp at h
+  | n+1, a :: l, h => by
+      rw [List.eraseDups_cons, List.nodup_cons]
+      constructor
+      · rw [List.mem_eraseDups]
+        simp
+      · apply nodup_eraseDups n
+        have := List.length_filter_le (fun b => !b == a) l
+        simp only [List.length_cons] at h
+        omega
+
+/-! ### inversion of `conf` -/
+
+theorem conf_const_inv {p : VNode} (h : conf .const p = true) : p = .const := by
+  cases p <;> simp [conf] at h; rfl
+
+theorem conf_sub_inv {sf : SFields} {p : VNode} (h : conf (.sub sf) p = true) :
+    ∃ vf, p = .sub vf ∧ confFields sf vf = true := by
+  cases p <;> simp [conf] at h
+  exact ⟨_, rfl, h⟩
+
+theorem conf_array_inv {e : SNode} {n : Nat} {p : VNode} (h : conf (.array e n) p = true) :
+    ∃ l, p = .array l ∧ l.length = n ∧ confList e l = true := by
+  cases p <;> simp [conf] at h
+  exact ⟨_, rfl, h.1, h.2⟩
+
+theorem conf_amap_inv {e : SNode} {i : Nat} {mn mx : Option Nat} {p : VNode} (h : conf (.amap e i mn mx) p = true) :
+    ∃ m, p = .amap m ∧ sortedNat m.keys = true ∧ (∀ k ∈ m.keys, k ≤ usizeMax) ∧
+      sizeOk m.length mn mx = true ∧ confEntries e m = true := by
+  cases p <;> simp [conf] at h
+  exact ⟨_, rfl, h.1.1.1, h.1.1.2, h.1.2, h.2⟩
+
+theorem conf_variant_inv {o : SFields} {i : String} {p : VNode} (h : conf (.variant o i) p = true) :
+    ∃ n v cs, p = .variant n v ∧ o.lookup n = some cs ∧ conf cs v = true := by
+  cases p <;> simp [conf] at h
+  rename_i n v
+  split at h
+  · rename_i cs hcs; exact ⟨n, v, cs, rfl, hcs, h⟩
+  · simp at h
+
+theorem conf_opt_inv {e : SNode} {b : Bool} {p : VNode} (h : conf (.opt e b) p = true) :
+    p = .onone ∨ ∃ v, p = .osome v ∧ conf e v = true := by
+  cases p <;> simp [conf] at h
+  · exact .inl rfl
+  · exact .inr ⟨_, rfl, h⟩
+
+/-! ### children of conforming values -/
+
+/-- the spec `s` is declared under the key `k` -/
+def SFields.has : SFields → String → SNode → Prop
+  | .nil, _, _ => False
+  | .cons k n r, x, s => (k = x ∧ n = s) ∨ SFields.has r x s
+
+theorem has_mem_keys : ∀ (sf : SFields) (k : String) (s : SNode), SFields.has sf k s → k ∈ sf.keys
+  | .nil, _, _, h => by simp [SFields.has] at h
+  | .cons k' n r, k, s, h => by
+      simp only [SFields.has] at h
+      simp only [SFields.keys, List.mem_cons]
+      rcases h with ⟨h, _⟩ | h
+      · exact .inl h.symm
+      · exact .inr (has_mem_keys r k s h)
+
+theorem has_wf : ∀ (sf : SFields) (k : String) (s : SNode), wfFields sf = true → SFields.has sf k s → wf s = true
+  | .nil, _, _, _, h => by simp [SFields.has] at h
+  | .cons k' n r, k, s, hw, h => by
+      simp only [wfFields, Bool.and_eq_true] at hw
+      simp only [SFields.has] at h
+      rcases h with ⟨_, h⟩ | h
+      · exact h ▸ hw.1
+      · exact has_wf r k s hw.2 h
+
+theorem lookup_wf' : ∀ (o : SFields) (k : String) (cs : SNode), wfFields o = true → o.lookup k = some cs → wf cs = true
+  | .nil, _, _, _, h => by simp [SFields.lookup] at h
+  | .cons k' n r, k, cs, hw, h => by
+      simp only [wfFields, Bool.and_eq_true] at hw
+      simp only [SFields.lookup] at h
+      split at h
+      · injection h with h; subst h; exact hw.1
+      · exact lookup_wf' r k cs hw.2 h
+
+/-- under distinct (sorted) keys, looking a declared key up in a conforming field list finds a conforming value -/
+theorem confFields_lookup : ∀ (sf : SFields) (vf : VFields) (k : String) (s : SNode), sortedStr sf.keys = true →
+    confFields sf vf = true → SFields.has sf k s → ∃ v, vf.lookup k = some v ∧ conf s v = true
+  | .nil, _, _, _, _, _, h => by simp [SFields.has] at h
+  | .cons k0 s0 sr, .nil, _, _, _, hc, _ => by simp [confFields] at hc
+  | .cons k0 s0 sr, .cons k1 v1 vr, k, s, hso, hc, h => by
+      simp only [confFields, Bool.and_eq_true, beq_iff_eq] at hc
+      obtain ⟨⟨rfl, hc1⟩, hc2⟩ := hc
+      have hso' := (sortedStr_cons' k0 sr.keys).1 (by simpa [SFields.keys] using hso)
+      simp only [SFields.has] at h
+      rcases h with ⟨rfl, rfl⟩ | h
+      · exact ⟨v1, by simp [VFields.lookup], hc1⟩
+      · have hlt := hso'.1 k (has_mem_keys sr k s h)
+        have hne : ¬ k0 = k := fun e => String.lt_irrefl k (e ▸ hlt)
+        obtain ⟨v, hv, hcv⟩ := confFields_lookup sr vr k s hso'.2 hc2 h
+        exact ⟨v, by simp [VFields.lookup, hne, hv], hcv⟩
+
+theorem confList_get : ∀ (e : SNode) (l : VList) (i : Nat), confList e l = true → i < l.length →
+    ∃ v, l.get? i = some v ∧ conf e v = true
+  | _, .nil, _, _, h => by simp [VList.length] at h
+  | e, .cons v r, 0, hc, _ => by
+      simp only [confList, Bool.and_eq_true] at hc
+      exact ⟨v, rfl, hc.1⟩
+  | e, .cons v r, i+1, hc, h => by
+      simp only [confList, Bool.and_eq_true] at hc
+      simp only [VList.length] at h
+      simpa [VList.get?] using confList_get e r i hc.2 (by omega)
+
+theorem confList_get' : ∀ (e : SNode) (l : VList) (i : Nat) (v : VNode), confList e l = true → l.get? i = some v →
+    conf e v = true
+  | _, .nil, _, _, _, h => by simp [VList.get?] at h
+  | e, .cons v r, 0, w, hc, h => by
+      simp only [confList, Bool.and_eq_true] at hc
+      simp only [VList.get?, Option.some.injEq] at h
+      exact h ▸ hc.1
+  | e, .cons v r, i+1, w, hc, h => by
+      simp only [confList, Bool.and_eq_true] at hc
+      exact confList_get' e r i w hc.2 (by simpa [VList.get?] using h)
+
+theorem lookup_mem_keys : ∀ (m : VEntries) (k : Nat) (v : VNode), m.lookup k = some v → k ∈ m.keys
+  | .nil, _, _, h => by simp [VEntries.lookup] at h
+  | .cons k' v' r, k, v, h => by
+      simp only [VEntries.lookup] at h
+      simp only [VEntries.keys, List.mem_cons]
+      split at h
+      · rename_i hk; exact .inl (by simpa using Eq.symm (beq_iff_eq.1 hk))
+      · exact .inr (lookup_mem_keys r k v h)
+
+theorem mem_keys_lookup : ∀ (m : VEntries) (k : Nat), k ∈ m.keys → ∃ v, m.lookup k = some v
+  | .nil, _, h => by simp [VEntries.keys] at h
+  | .cons k' v' r, k, h => by
+      simp only [VEntries.keys, List.mem_cons] at h
+      simp only [VEntries.lookup]
+      by_cases hk : k' = k
+      · exact ⟨v', by simp [hk]⟩
+      · rcases h with h | h
+        · exact absurd h.symm hk
+        · obtain ⟨v, hv⟩ := mem_keys_lookup r k h
+          exact ⟨v, by simp [hk, hv]⟩
+
+theorem confEntries_lookup : ∀ (e : SNode) (m : VEntries) (k : Nat) (v : VNode), confEntries e m = true →
+    m.lookup k = some v → conf e v = true
+  | _, .nil, _, _, _, h => by simp [VEntries.lookup] at h
+  | e, .cons k' v' r, k, v, hc, h => by
+      simp only [confEntries, Bool.and_eq_true] at hc
+      simp only [VEntries.lookup] at h
+      split at h
+      · injection h with h; exact h ▸ hc.1
+      · exact confEntries_lookup e r k v hc.2 h
+
+theorem length_eq_keys : ∀ (m : VEntries), m.length = m.keys.length
+  | .nil => rfl
+  | .cons _ _ r => by simp [VEntries.length, VEntries.keys, length_eq_keys r]
+
+/-! ### lists of children -/
+
+theorem filterMap_forall {f : VNode → Option VNode} {ps : List VNode} {P : VNode → Prop}
+    (h : ∀ p ∈ ps, ∀ v, f p = some v → P v) : ∀ v ∈ ps.filterMap f, P v := by
+  intro v hv
+  obtain ⟨p, hp, hfp⟩ := List.mem_filterMap.1 hv
+  exact h p hp v hfp
+
+theorem filterMap_ne_nil {f : VNode → Option VNode} {ps : List VNode} {p v : VNode} (hp : p ∈ ps)
+    (hf : f p = some v) : ps.filterMap f ≠ [] := by
+  intro h
+  have : v ∈ ps.filterMap f := List.mem_filterMap.2 ⟨p, hp, hf⟩
+  rw [h] at this
+  simp at this
+
+theorem exists_mem_of_ne_nil {ps : List VNode} (h : ps ≠ []) : ∃ p, p ∈ ps := by
+  cases ps with
+  | nil => exact absurd rfl h
+  | cons p r => exact ⟨p, by simp⟩
+
+/-! ### one-step view of the acceptor -/
+
+theorem selOk_mem {α} [BEq α] [LawfulBEq α] {sp : PClass} {ps : List α} {x : α} (h : selOk sp ps x = true) : x ∈ ps := by
+  cases sp <;> simp [selOk] at h
+  · exact h
+  · exact h
+  · cases ps with
+    | nil => simp at h
+    | cons a r => simp at h; simp [h]
+
+/-- the ways an offspring can be accepted -/
+inductive View (cp sp : PClass) (s : SNode) (ps : List VNode) (out : VNode) : Prop
+  | const : s = .const → out = .const → View cp sp s ps out
+  | single (p : VNode) : ps = [p] → out = p → View cp sp s ps out
+  | clone : out ∈ ps → View cp sp s ps out
+  | sub (sf : SFields) (fo : VFields) : s = .sub sf → out = .sub fo → crossAccFields cp sp sf ps fo = true →
+      View cp sp s ps out
+  | array (e : SNode) (n : Nat) (lo : VList) : s = .array e n → out = .array lo → lo.length = n →
+      crossAccList cp sp e ps 0 lo = true → View cp sp s ps out
+  | amap (e : SNode) (i : Nat) (mn mx : Option Nat) (mo : VEntries) : s = .amap e i mn mx → out = .amap mo →
+      keysOk sp mn mx ps mo.keys = true → crossAccEntries cp sp e ps mo = true → View cp sp s ps out
+  | variant (opts : SFields) (i n : String) (v : VNode) (cs : SNode) : s = .variant opts i → out = .variant n v →
+      n ∈ ps.filterMap varName → opts.lookup n = some cs →
+      crossAcc cp sp cs (ps.filterMap (varChild n)) v = true → View cp sp s ps out
+  | onone (e : SNode) (b : Bool) : s = .opt e b → out = .onone → true ∈ ps.map isAbsent → View cp sp s ps out
+  | osome (e : SNode) (b : Bool) (v : VNode) : s = .opt e b → out = .osome v → false ∈ ps.map isAbsent →
+      crossAcc cp sp e (ps.filterMap optChild) v = true → View cp sp s ps out
+
+theorem names_mem {l : List String} {n : String}
+    (h : (match l.eraseDups with
+          | [only] => n == only
+          | names => selOk sp l n && names.contains n) = true) : n ∈ l := by
+  split at h
+  · rename_i only heq
+    have : only ∈ l.eraseDups := by rw [heq]; simp
+    rw [List.mem_eraseDups] at this
+    simpa [beq_iff_eq.1 h] using this
+  · simp only [Bool.and_eq_true] at h
+    exact selOk_mem h.1
+
+theorem absent_true {l : List Bool}
+    (h : (match l.eraseDups with
+          | [only] => only
+          | _ => selOk sp l true) = true) : true ∈ l := by
+  split at h
+  · rename_i only heq
+    have : only ∈ l.eraseDups := by rw [heq]; simp
+    rw [List.mem_eraseDups] at this
+    simpa [h] using this
+  · exact selOk_mem h
+
+theorem absent_false {l : List Bool}
+    (h : (match l.eraseDups with
+          | [only] => !only
+          | _ => selOk sp l false) = true) : false ∈ l := by
+  split at h
+  · rename_i only heq
+    have : only ∈ l.eraseDups := by rw [heq]; simp
+    rw [List.mem_eraseDups] at this
+    simp only [Bool.not_eq_true'] at h
+    simpa [h] using this
+  · exact selOk_mem h
+
+theorem crossAcc_view {cp sp : PClass} {s : SNode} {ps : List VNode} {out : VNode}
+    (h : crossAcc cp sp s ps out = true) : View cp sp s ps out := by
+  by_cases hc : s = .const
+  · subst hc
+    rw [crossAcc.eq_1] at h
+    exact .const rfl (beq_iff_eq.1 h)
+  · cases ps with
+    | nil => rw [crossAcc.eq_2 _ _ _ _ hc] at h; simp at h
+    | cons p r =>
+      cases r with
+      | nil => rw [crossAcc.eq_3 _ _ _ _ _ hc] at h; exact .single p rfl (beq_iff_eq.1 h)
+      | cons q r =>
+        unfold crossAcc at h
+        split at h
+        · exact absurd rfl hc
+        · simp only [Bool.or_eq_true, Bool.and_eq_true] at h
+          rcases h with ⟨_, h⟩ | ⟨_, h⟩
+          · exact .clone (selOk_mem h)
+          · split at h
+            · exact .sub _ _ rfl rfl h
+            · simp only [Bool.and_eq_true, beq_iff_eq] at h
+              exact .array _ _ _ rfl rfl h.1 h.2
+            · simp only [Bool.and_eq_true] at h
+              exact .amap _ _ _ _ _ rfl rfl h.1 h.2
+            · simp only [Bool.and_eq_true] at h
+              obtain ⟨h1, h2⟩ := h
+              split at h2
+              · rename_i cs hcs
+                exact .variant _ _ _ _ cs rfl rfl (names_mem h1) hcs h2
+              · simp at h2
+            · exact .onone _ _ rfl rfl (absent_true h)
+            · simp only [Bool.and_eq_true] at h
+              exact .osome _ _ _ rfl rfl (absent_false h.1) h.2
+            · simp at h
+
+/-! ### introduction rules of `prov` -/
+
+theorem prov_mem {s : SNode} {ps : List VNode} {out : VNode} (h : out ∈ ps) : prov s ps out = true := by
+  rw [prov.eq_def]
+  split
+  · rfl
+  · simp [h]
+
+theorem prov_const {ps : List VNode} : prov .const ps .const = true := by simp [prov]
+
+theorem prov_sub {sf ps fo} (h : provFields sf ps fo = true) : prov (.sub sf) ps (.sub fo) = true := by
+  simp [prov, h]
+
+theorem prov_array {e n ps lo} (h : provList e ps 0 lo = true) : prov (.array e n) ps (.array lo) = true := by
+  simp [prov, h]
+
+theorem prov_amap {e i mn mx ps mo} (h : provEntries e ps mo = true) :
+    prov (.amap e i mn mx) ps (.amap mo) = true := by
+  simp [prov, h]
+
+theorem prov_variant {opts : SFields} {i n : String} {ps : List VNode} {v : VNode} {cs : SNode}
+    (h1 : ∃ p ∈ ps, (varChild n p).isSome = true) (h2 : opts.lookup n = some cs)
+    (h3 : prov cs (ps.filterMap (varChild n)) v = true) : prov (.variant opts i) ps (.variant n v) = true := by
+  have : (ps.any fun p => (varChild n p).isSome) = true := by simpa using h1
+  simp [prov, h2, h3, this]
+
+theorem prov_onone {e b ps} (h : ∃ p ∈ ps, isAbsent p = true) : prov (.opt e b) ps .onone = true := by
+  have : (ps.any isAbsent) = true := by simpa using h
+  simp [prov, this]
+
+theorem prov_osome {e : SNode} {b : Bool} {ps : List VNode} {v : VNode}
+    (h1 : ∃ p ∈ ps, (optChild p).isSome = true) (h3 : prov e (ps.filterMap optChild) v = true) :
+    prov (.opt e b) ps (.osome v) = true := by
+  have : (ps.any fun p => (optChild p).isSome) = true := by simpa using h1
+  simp [prov, h3, this]
+
+/-! ### what `keysOk` says -/
+
+theorem mem_unionKeys {ps : List VNode} {k : Nat} : k ∈ unionKeys ps ↔ ∃ p ∈ ps, k ∈ mapKeys p := by
+  simp [unionKeys, List.mem_eraseDups, List.mem_flatMap]
+
+theorem unionKeys_nodup (ps : List VNode) : (unionKeys ps).Nodup := nodup_eraseDups _ _ (Nat.le_refl _)
+
+theorem keysOk_spec {sp : PClass} {mn mx : Option Nat} {ps : List VNode} {S : List Nat}
+    (h : keysOk sp mn mx ps S = true) :
+    sortedNat S = true ∧ (∀ k ∈ S, k ∈ unionKeys ps) ∧ S.length ≤ mx.getD (unionKeys ps).length ∧
+    Nat.min (mn.getD 0) (unionKeys ps).length ≤ S.length ∧
+    (∀ k ∈ unionKeys ps, k ∈ S ∨ S.length = mx.getD (unionKeys ps).length ∨
+      (if sp == .one then ∀ p r, ps = p :: r → k ∉ mapKeys p else ∃ p ∈ ps, k ∉ mapKeys p)) := by
+  simp only [keysOk, Bool.and_eq_true, decide_eq_true_eq, List.all_eq_true, Bool.or_eq_true, List.contains_iff_mem,
+    beq_iff_eq] at h
+  obtain ⟨⟨⟨⟨⟨⟨_, h1⟩, h2⟩, h3⟩, h4⟩, h5⟩, _⟩ := h
+  refine ⟨h1, h2, h3, h4, fun k hk => ?_⟩
+  rcases h5 k hk with (h | h) | h
+  · exact .inl h
+  · exact .inr (.inl h)
+  · refine .inr (.inr ?_)
+    split at h
+    · rename_i hsp
+      simp only [hsp, beq_self_eq_true, if_true]
+      intro p r hps
+      subst hps
+      simpa using h
+    · rename_i hsp
+      simpa [hsp] using h
+
+/-- a single parent is returned unchanged -/
+theorem single (cp sp : PClass) (s : SNode) (p out : VNode) (hp : conf s p = true)
+    (h : crossAcc cp sp s [p] out = true) : out = p := by
+  by_cases hc : s = .const
+  · subst hc
+    rw [crossAcc.eq_1] at h
+    rw [conf_const_inv hp]
+    exact beq_iff_eq.1 h
+  · rw [crossAcc.eq_3 _ _ _ _ _ hc] at h
+    exact beq_iff_eq.1 h
+
+/-! ### children of conforming parents -/
+
+theorem arr_child {e : SNode} {n j : Nat} {p v : VNode} (hp : conf (.array e n) p = true)
+    (hv : arrChild j p = some v) : conf e v = true := by
+  obtain ⟨l, rfl, _, hl⟩ := conf_array_inv hp
+  exact confList_get' e l j v hl hv
+
+theorem arr_child_ex {e : SNode} {n j : Nat} {p : VNode} (hp : conf (.array e n) p = true) (hj : j < n) :
+    ∃ v, arrChild j p = some v ∧ conf e v = true := by
+  obtain ⟨l, rfl, hlen, hl⟩ := conf_array_inv hp
+  exact confList_get e l j hl (by omega)
+
+theorem map_child {e : SNode} {i k : Nat} {mn mx : Option Nat} {p v : VNode} (hp : conf (.amap e i mn mx) p = true)
+    (hv : mapChild k p = some v) : conf e v = true := by
+  obtain ⟨m, rfl, _, _, _, hm⟩ := conf_amap_inv hp
+  exact confEntries_lookup e m k v hm hv
+
+theorem mapKeys_child {k : Nat} {p : VNode} (h : k ∈ mapKeys p) : ∃ v, mapChild k p = some v := by
+  cases p <;> simp [mapKeys] at h
+  exact mem_keys_lookup _ k h
+
+theorem var_child {o : SFields} {i n : String} {cs : SNode} {p v : VNode} (hp : conf (.variant o i) p = true)
+    (hl : o.lookup n = some cs) (hv : varChild n p = some v) : conf cs v = true := by
+  obtain ⟨n', v', cs', rfl, hl', hc'⟩ := conf_variant_inv hp
+  simp only [varChild] at hv
+  split at hv
+  · rename_i hn
+    have hn : n = n' := by simpa using hn
+    subst hn
+    injection hv with hv
+    rw [hl] at hl'
+    injection hl' with hl'
+    rw [hl', ← hv]
+    exact hc'
+  · simp at hv
+
+theorem varName_child {n : String} {ps : List VNode} (h : n ∈ ps.filterMap varName) :
+    ∃ p ∈ ps, ∃ v, p = .variant n v ∧ varChild n p = some v := by
+  obtain ⟨p, hp, hn⟩ := List.mem_filterMap.1 h
+  refine ⟨p, hp, ?_⟩
+  cases p <;> simp [varName] at hn
+  subst hn
+  exact ⟨_, rfl, by simp [varChild]⟩
+
+theorem opt_child {e : SNode} {b : Bool} {p v : VNode} (hp : conf (.opt e b) p = true)
+    (hv : optChild p = some v) : conf e v = true := by
+  rcases conf_opt_inv hp with rfl | ⟨v', rfl, hc⟩
+  · simp [optChild] at hv
+  · simp only [optChild, Option.some.injEq] at hv
+    exact hv ▸ hc
+
+theorem present_child {e : SNode} {b : Bool} {ps : List VNode} (hp : ∀ p ∈ ps, conf (.opt e b) p = true)
+    (h : false ∈ ps.map isAbsent) : ∃ p ∈ ps, ∃ v, p = .osome v ∧ optChild p = some v := by
+  obtain ⟨p, hpm, hab⟩ := List.mem_map.1 h
+  refine ⟨p, hpm, ?_⟩
+  rcases conf_opt_inv (hp p hpm) with rfl | ⟨v', rfl, _⟩
+  · simp [isAbsent] at hab
+  · exact ⟨v', rfl, rfl⟩
+
+/-- every declared field is well-formed and every parent has a conforming value under its key -/
+def FieldsOk (sf : SFields) (ps : List VNode) : Prop :=
+  ∀ k s, SFields.has sf k s → wf s = true ∧ ∀ p ∈ ps, ∃ v, subChild k p = some v ∧ conf s v = true
+
+theorem fieldsOk_of_conf {sf : SFields} {ps : List VNode} (hs : wf (.sub sf) = true)
+    (hp : ∀ p ∈ ps, conf (.sub sf) p = true) : FieldsOk sf ps := by
+  simp only [wf, Bool.and_eq_true] at hs
+  intro k s hks
+  refine ⟨has_wf sf k s hs.2 hks, fun p hpm => ?_⟩
+  obtain ⟨vf, rfl, hvf⟩ := conf_sub_inv (hp p hpm)
+  exact confFields_lookup sf vf k s hs.1.2 hvf hks
+
+theorem FieldsOk.tail {k : String} {s : SNode} {sr : SFields} {ps : List VNode} (H : FieldsOk (.cons k s sr) ps) :
+    FieldsOk sr ps := fun k' s' h => H k' s' (by simp [SFields.has, h])
+
+theorem FieldsOk.head {k : String} {s : SNode} {sr : SFields} {ps : List VNode} (H : FieldsOk (.cons k s sr) ps) :
+    wf s = true ∧ ∀ p ∈ ps, ∃ v, subChild k p = some v ∧ conf s v = true := H k s (by simp [SFields.has])
+
+theorem FieldsOk.children {k : String} {s : SNode} {ps : List VNode}
+    (H : ∀ p ∈ ps, ∃ v, subChild k p = some v ∧ conf s v = true) :
+    ∀ v ∈ ps.filterMap (subChild k), conf s v = true :=
+  filterMap_forall fun p hp v hv => by
+    obtain ⟨v', hv', hc⟩ := H p hp
+    rw [hv] at hv'
+    injection hv' with hv'
+    exact hv' ▸ hc
+
+theorem children_ne_nil {f : VNode → Option VNode} {ps : List VNode} {P : VNode → Prop} (hne : ps ≠ [])
+    (H : ∀ p ∈ ps, ∃ v, f p = some v ∧ P v) : ps.filterMap f ≠ [] := by
+  obtain ⟨p, hp⟩ := exists_mem_of_ne_nil hne
+  obtain ⟨v, hv, _⟩ := H p hp
+  exact filterMap_ne_nil hp hv
+
+/-! ### provenance -/
+
+mutual
+theorem prov_main (cp sp : PClass) (s : SNode) (ps : List VNode) (out : VNode) (hs : wf s = true)
+    (hp : ∀ p ∈ ps, conf s p = true) (h : crossAcc cp sp s ps out = true) : prov s ps out = true := by
+  cases crossAcc_view h with
+  | const h1 h2 => subst h1 h2; exact prov_const
+  | single p h1 h2 => subst h1 h2; exact prov_mem (by simp)
+  | clone hm => exact prov_mem hm
+  | sub sf fo h1 h2 h3 =>
+      subst h1 h2
+      exact prov_sub (prov_fields cp sp sf ps fo (fieldsOk_of_conf hs hp) h3)
+  | array e n lo h1 h2 h3 h4 =>
+      subst h1 h2
+      simp only [wf, Bool.and_eq_true] at hs
+      exact prov_array (prov_list cp sp e ps 0 lo hs.2 (fun p hpm j v hv => arr_child (hp p hpm) hv) h4)
+  | amap e i mn mx mo h1 h2 h3 h4 =>
+      subst h1 h2
+      simp only [wf, Bool.and_eq_true] at hs
+      refine prov_amap (prov_entries cp sp e ps mo hs.2 (fun p hpm k v hv => map_child (hp p hpm) hv) ?_ h4)
+      intro k hk
+      obtain ⟨p, hpm, hkp⟩ := mem_unionKeys.1 ((keysOk_spec h3).2.1 k hk)
+      obtain ⟨v, hv⟩ := mapKeys_child hkp
+      exact ⟨p, hpm, by simp [hv]⟩
+  | variant opts i n v cs h1 h2 h3 h4 h5 =>
+      subst h1 h2
+      simp only [wf, Bool.and_eq_true] at hs
+      obtain ⟨p, hpm, v', _, hv'⟩ := varName_child h3
+      refine prov_variant ⟨p, hpm, by simp [hv']⟩ h4 ?_
+      exact prov_main cp sp cs _ v (lookup_wf' opts n cs hs.2 h4)
+        (filterMap_forall fun p hpm v hv => var_child (hp p hpm) h4 hv) h5
+  | onone e b h1 h2 h3 =>
+      subst h1 h2
+      obtain ⟨p, hpm, hab⟩ := List.mem_map.1 h3
+      exact prov_onone ⟨p, hpm, hab⟩
+  | osome e b v h1 h2 h3 h4 =>
+      subst h1 h2
+      simp only [wf] at hs
+      obtain ⟨p, hpm, v', _, hv'⟩ := present_child hp h3
+      refine prov_osome ⟨p, hpm, by simp [hv']⟩ ?_
+      exact prov_main cp sp e _ v hs (filterMap_forall fun p hpm v hv => opt_child (hp p hpm) hv) h4
+termination_by sizeOf out
+theorem prov_fields (cp sp : PClass) (sf : SFields) (ps : List VNode) (fo : VFields) (H : FieldsOk sf ps)
+    (h : crossAccFields cp sp sf ps fo = true) : provFields sf ps fo = true := by
+  cases fo with
+  | nil => cases sf <;> simp [crossAccFields] at h <;> simp [provFields]
+  | cons k' v r =>
+    cases sf with
+    | nil => simp [crossAccFields] at h
+    | cons k s sr =>
+      simp only [crossAccFields, Bool.and_eq_true] at h
+      have h1 := prov_main cp sp s _ v H.head.1 (FieldsOk.children H.head.2) h.1.2
+      have h2 := prov_fields cp sp sr ps r H.tail h.2
+      simp [provFields, h.1.1, h1, h2]
+termination_by sizeOf fo
+theorem prov_list (cp sp : PClass) (e : SNode) (ps : List VNode) (i : Nat) (lo : VList) (hs : wf e = true)
+    (hc : ∀ p ∈ ps, ∀ j v, arrChild j p = some v → conf e v = true)
+    (h : crossAccList cp sp e ps i lo = true) : provList e ps i lo = true := by
+  cases lo with
+  | nil => simp [provList]
+  | cons v r =>
+    simp only [crossAccList, Bool.and_eq_true] at h
+    have h1 := prov_main cp sp e _ v hs (filterMap_forall fun p hpm v hv => hc p hpm i v hv) h.1
+    have h2 := prov_list cp sp e ps (i+1) r hs hc h.2
+    simp [provList, h1, h2]
+termination_by sizeOf lo
+theorem prov_entries (cp sp : PClass) (e : SNode) (ps : List VNode) (mo : VEntries) (hs : wf e = true)
+    (hc : ∀ p ∈ ps, ∀ k v, mapChild k p = some v → conf e v = true)
+    (HK : ∀ k ∈ mo.keys, ∃ p ∈ ps, (mapChild k p).isSome = true)
+    (h : crossAccEntries cp sp e ps mo = true) : provEntries e ps mo = true := by
+  cases mo with
+  | nil => simp [provEntries]
+  | cons k v r =>
+    simp only [crossAccEntries, Bool.and_eq_true] at h
+    have h1 := prov_main cp sp e _ v hs (filterMap_forall fun p hpm v hv => hc p hpm k v hv) h.1
+    have h2 := prov_entries cp sp e ps r hs hc (fun k' hk' => HK k' (by simp [VEntries.keys, hk'])) h.2
+    have hany : (ps.any fun p => (mapChild k p).isSome) = true := by
+      simpa using HK k (by simp [VEntries.keys])
+    simp [provEntries, h1, h2, hany]
+termination_by sizeOf mo
+end
+
+/-! ### closure under conformance -/
+
+/-- the key set accepted by `keysOk` is a legal key set -/
+theorem amap_keys_conf {sp : PClass} {e : SNode} {i : Nat} {mn mx : Option Nat} {ps : List VNode} {S : List Nat}
+    (hne : ps ≠ []) (hp : ∀ p ∈ ps, conf (.amap e i mn mx) p = true) (hk : keysOk sp mn mx ps S = true) :
+    sortedNat S = true ∧ (∀ k ∈ S, k ≤ usizeMax) ∧ sizeOk S.length mn mx = true := by
+  obtain ⟨h1, h2, h3, h4, _⟩ := keysOk_spec hk
+  refine ⟨h1, fun k hkS => ?_, ?_⟩
+  · obtain ⟨p, hpm, hkp⟩ := mem_unionKeys.1 (h2 k hkS)
+    obtain ⟨m, rfl, _, hb, _, _⟩ := conf_amap_inv (hp p hpm)
+    exact hb k hkp
+  · obtain ⟨p, hpm⟩ := exists_mem_of_ne_nil hne
+    obtain ⟨m, rfl, hso, _, hsz, _⟩ := conf_amap_inv (hp p hpm)
+    have hle : m.keys.length ≤ (unionKeys ps).length :=
+      List.Nodup.length_le_of_subset (sortedNat_nodup _ hso)
+        (fun k hkm => mem_unionKeys.2 ⟨_, hpm, by simpa [mapKeys] using hkm⟩)
+    rw [length_eq_keys] at hsz
+    simp only [sizeOk, Bool.and_eq_true] at hsz ⊢
+    constructor
+    · cases mn with
+      | none => simp [optAll]
+      | some a =>
+        have ha : a ≤ m.keys.length := by simpa [optAll] using hsz.1
+        simp only [Option.getD_some] at h4
+        simp only [optAll, decide_eq_true_eq]
+        have : Nat.min a (unionKeys ps).length = a := Nat.min_eq_left (by omega)
+        omega
+    · cases mx with
+      | none => simp [optAll]
+      | some b => simpa [optAll] using h3
+
+mutual
+theorem conf_main (cp sp : PClass) (s : SNode) (ps : List VNode) (out : VNode) (hs : wf s = true)
+    (hne : ps ≠ []) (hp : ∀ p ∈ ps, conf s p = true) (h : crossAcc cp sp s ps out = true) : conf s out = true := by
+  cases crossAcc_view h with
+  | const h1 h2 => subst h1 h2; simp [conf]
+  | single p h1 h2 => subst h1 h2; exact hp _ (by simp)
+  | clone hm => exact hp _ hm
+  | sub sf fo h1 h2 h3 =>
+      subst h1 h2
+      simp only [conf]
+      exact conf_fields cp sp sf ps fo hne (fieldsOk_of_conf hs hp) h3
+  | array e n lo h1 h2 h3 h4 =>
+      subst h1 h2
+      simp only [wf, Bool.and_eq_true] at hs
+      simp only [conf, Bool.and_eq_true, beq_iff_eq]
+      refine ⟨h3, conf_list cp sp e ps 0 lo hs.2 hne (fun j _ hj p hpm => arr_child_ex (hp p hpm) (by omega)) h4⟩
+  | amap e i mn mx mo h1 h2 h3 h4 =>
+      subst h1 h2
+      simp only [wf, Bool.and_eq_true] at hs
+      obtain ⟨k1, k2, k3⟩ := amap_keys_conf hne hp h3
+      simp only [conf, Bool.and_eq_true, List.all_eq_true, decide_eq_true_eq]
+      refine ⟨⟨⟨k1, k2⟩, by rw [length_eq_keys]; exact k3⟩, ?_⟩
+      refine conf_entries cp sp e ps mo hs.2 (fun p hpm k v hv => map_child (hp p hpm) hv) ?_ h4
+      intro k hk
+      obtain ⟨p, hpm, hkp⟩ := mem_unionKeys.1 ((keysOk_spec h3).2.1 k hk)
+      obtain ⟨v, hv⟩ := mapKeys_child hkp
+      exact filterMap_ne_nil hpm hv
+  | variant opts i n v cs h1 h2 h3 h4 h5 =>
+      subst h1 h2
+      simp only [wf, Bool.and_eq_true] at hs
+      obtain ⟨p, hpm, v', _, hv'⟩ := varName_child h3
+      have := conf_main cp sp cs _ v (lookup_wf' opts n cs hs.2 h4) (filterMap_ne_nil hpm hv')
+        (filterMap_forall fun p hpm v hv => var_child (hp p hpm) h4 hv) h5
+      simp [conf, h4, this]
+  | onone e b h1 h2 h3 => subst h1 h2; simp [conf]
+  | osome e b v h1 h2 h3 h4 =>
+      subst h1 h2
+      simp only [wf] at hs
+      obtain ⟨p, hpm, v', _, hv'⟩ := present_child hp h3
+      simp only [conf]
+      exact conf_main cp sp e _ v hs (filterMap_ne_nil hpm hv')
+        (filterMap_forall fun p hpm v hv => opt_child (hp p hpm) hv) h4
+termination_by sizeOf out
+theorem conf_fields (cp sp : PClass) (sf : SFields) (ps : List VNode) (fo : VFields) (hne : ps ≠ [])
+    (H : FieldsOk sf ps) (h : crossAccFields cp sp sf ps fo = true) : confFields sf fo = true := by
+  cases fo with
+  | nil => cases sf <;> simp [crossAccFields] at h <;> simp [confFields]
+  | cons k' v r =>
+    cases sf with
+    | nil => simp [crossAccFields] at h
+    | cons k s sr =>
+      simp only [crossAccFields, Bool.and_eq_true] at h
+      have h1 := conf_main cp sp s _ v H.head.1 (children_ne_nil hne H.head.2) (FieldsOk.children H.head.2) h.1.2
+      have h2 := conf_fields cp sp sr ps r hne H.tail h.2
+      simp [confFields, h.1.1, h1, h2]
+termination_by sizeOf fo
+theorem conf_list (cp sp : PClass) (e : SNode) (ps : List VNode) (i : Nat) (lo : VList) (hs : wf e = true)
+    (hne : ps ≠ [])
+    (hc : ∀ j, i ≤ j → j < i + lo.length → ∀ p ∈ ps, ∃ v, arrChild j p = some v ∧ conf e v = true)
+    (h : crossAccList cp sp e ps i lo = true) : confList e lo = true := by
+  cases lo with
+  | nil => simp [confList]
+  | cons v r =>
+    simp only [crossAccList, Bool.and_eq_true] at h
+    simp only [VList.length] at hc
+    have hi := hc i (Nat.le_refl _) (by omega)
+    have h1 := conf_main cp sp e _ v hs (children_ne_nil hne hi)
+      (filterMap_forall fun p hpm v hv => by
+        obtain ⟨v', hv', hcv⟩ := hi p hpm
+        rw [hv] at hv'
+        injection hv' with hv'
+        exact hv' ▸ hcv) h.1
+    have h2 := conf_list cp sp e ps (i+1) r hs hne (fun j hj1 hj2 => hc j (by omega) (by omega)) h.2
+    simp [confList, h1, h2]
+termination_by sizeOf lo
+theorem conf_entries (cp sp : PClass) (e : SNode) (ps : List VNode) (mo : VEntries) (hs : wf e = true)
+    (hc : ∀ p ∈ ps, ∀ k v, mapChild k p = some v → conf e v = true)
+    (HK : ∀ k ∈ mo.keys, ps.filterMap (mapChild k) ≠ [])
+    (h : crossAccEntries cp sp e ps mo = true) : confEntries e mo = true := by
+  cases mo with
+  | nil => simp [confEntries]
+  | cons k v r =>
+    simp only [crossAccEntries, Bool.and_eq_true] at h
+    have h1 := conf_main cp sp e _ v hs (HK k (by simp [VEntries.keys]))
+      (filterMap_forall fun p hpm v hv => hc p hpm k v hv) h.1
+    have h2 := conf_entries cp sp e ps r hs hc (fun k' hk' => HK k' (by simp [VEntries.keys, hk'])) h.2
+    simp [confEntries, h1, h2]
+termination_by sizeOf mo
+end
+
+/-! ### identical parents -/
+
+theorem same_children {f : VNode → Option VNode} {ps : List VNode} {w : VNode}
+    (H : ∀ q ∈ ps, f q = some w) : ∀ q ∈ ps.filterMap f, q = w :=
+  filterMap_forall fun p hp v hv => by
+    rw [H p hp] at hv
+    injection hv with hv
+    exact hv.symm
+
+theorem same_children_ne_nil {f : VNode → Option VNode} {ps : List VNode} {w : VNode} (hne : ps ≠ [])
+    (H : ∀ q ∈ ps, f q = some w) : ps.filterMap f ≠ [] := by
+  obtain ⟨p, hp⟩ := exists_mem_of_ne_nil hne
+  exact filterMap_ne_nil hp (H p hp)
+
+/-- with identical parents the accepted key set is the parents' key set -/
+theorem amap_keys_same {sp : PClass} {mn mx : Option Nat} {ps : List VNode} {m : VEntries} {S : List Nat}
+    (hne : ps ≠ []) (hall : ∀ q ∈ ps, q = .amap m) (hso : sortedNat m.keys = true)
+    (hsz : sizeOk m.length mn mx = true) (hk : keysOk sp mn mx ps S = true) : S = m.keys := by
+  obtain ⟨h1, h2, h3, _, h5⟩ := keysOk_spec hk
+  have hU : ∀ k, k ∈ unionKeys ps ↔ k ∈ m.keys := by
+    intro k
+    rw [mem_unionKeys]
+    constructor
+    · rintro ⟨p, hpm, hkp⟩
+      rw [hall p hpm] at hkp
+      simpa [mapKeys] using hkp
+    · intro hkm
+      obtain ⟨p, hpm⟩ := exists_mem_of_ne_nil hne
+      refine ⟨p, hpm, ?_⟩
+      rw [hall p hpm]
+      simpa [mapKeys] using hkm
+  have hlenU : (unionKeys ps).length ≤ m.keys.length :=
+    List.Nodup.length_le_of_subset (unionKeys_nodup ps) (fun k hk => (hU k).1 hk)
+  have hUS : ∀ k ∈ unionKeys ps, k ∈ S := by
+    by_cases hlen : (unionKeys ps).length ≤ S.length
+    · exact subset_of_length_ge S _ (sortedNat_nodup _ h1) h2 hlen
+    · intro k hkU
+      rcases h5 k hkU with h | h | h
+      · exact h
+      · exfalso
+        cases mx with
+        | none => simp only [Option.getD_none] at h; omega
+        | some b =>
+          simp only [Option.getD_some] at h
+          rw [length_eq_keys] at hsz
+          simp only [sizeOk, Bool.and_eq_true, optAll, decide_eq_true_eq] at hsz
+          omega
+      · exfalso
+        have hkm := (hU k).1 hkU
+        split at h
+        · cases ps with
+          | nil => exact hne rfl
+          | cons q r =>
+            have := h q r rfl
+            rw [hall q (by simp)] at this
+            exact this (by simpa [mapKeys] using hkm)
+        · obtain ⟨q, hq, hkq⟩ := h
+          rw [hall q hq] at hkq
+          exact hkq (by simpa [mapKeys] using hkm)
+  exact sortedNat_ext S m.keys h1 hso fun x =>
+    ⟨fun hx => (hU x).1 (h2 x hx), fun hx => hUS x ((hU x).2 hx)⟩
+
+mutual
+theorem same_main (cp sp : PClass) (s : SNode) (ps : List VNode) (p out : VNode) (hs : wf s = true)
+    (hne : ps ≠ []) (hall : ∀ q ∈ ps, q = p) (hp : conf s p = true)
+    (h : crossAcc cp sp s ps out = true) : out = p := by
+  cases crossAcc_view h with
+  | const h1 h2 => subst h1 h2; exact (conf_const_inv hp).symm
+  | single q h1 h2 => subst h1 h2; exact hall _ (by simp)
+  | clone hm => exact hall _ hm
+  | sub sf fo h1 h2 h3 =>
+      subst h1 h2
+      obtain ⟨vf, rfl, hvf⟩ := conf_sub_inv hp
+      simp only [wf, Bool.and_eq_true] at hs
+      congr 1
+      exact same_fields cp sp sf ps fo vf hne (fun k s hks => has_wf sf k s hs.2 hks) hs.1.2 hvf
+        (fun k _ q hq => by rw [hall q hq]; rfl) h3
+  | array e n lo h1 h2 h3 h4 =>
+      subst h1 h2
+      obtain ⟨l, rfl, hlen, hl⟩ := conf_array_inv hp
+      simp only [wf, Bool.and_eq_true] at hs
+      congr 1
+      exact same_list cp sp e ps 0 lo l hs.2 hne hl (by omega)
+        (fun j q hq => by rw [hall q hq]; simp [arrChild]) h4
+  | amap e i mn mx mo h1 h2 h3 h4 =>
+      subst h1 h2
+      obtain ⟨m, rfl, hso, _, hsz, hm⟩ := conf_amap_inv hp
+      simp only [wf, Bool.and_eq_true] at hs
+      congr 1
+      exact same_entries cp sp e ps mo m hs.2 hne hm (amap_keys_same hne hall hso hsz h3) hso
+        (fun k _ q hq => by rw [hall q hq]; rfl) h4
+  | variant opts i n v cs h1 h2 h3 h4 h5 =>
+      subst h1 h2
+      simp only [wf, Bool.and_eq_true] at hs
+      obtain ⟨q, hqm, v', hq, hv'⟩ := varName_child h3
+      have hq' := hall q hqm
+      subst hq'
+      subst hq
+      have hv : v = v' := same_main cp sp cs _ v' v (lookup_wf' opts n cs hs.2 h4)
+        (same_children_ne_nil hne fun q hq => by rw [hall q hq]; exact hv')
+        (same_children fun q hq => by rw [hall q hq]; exact hv')
+        (var_child hp h4 hv') h5
+      rw [hv]
+  | onone e b h1 h2 h3 =>
+      subst h1 h2
+      obtain ⟨q, hqm, hab⟩ := List.mem_map.1 h3
+      rw [hall q hqm] at hab
+      cases p <;> simp [isAbsent] at hab
+      rfl
+  | osome e b v h1 h2 h3 h4 =>
+      subst h1 h2
+      simp only [wf] at hs
+      obtain ⟨q, hqm, v', hq, hv'⟩ := present_child (fun q hq => by rw [hall q hq]; exact hp) h3
+      have hq' := hall q hqm
+      subst hq'
+      subst hq
+      have hv : v = v' := same_main cp sp e _ v' v hs
+        (same_children_ne_nil hne fun q hq => by rw [hall q hq]; exact hv')
+        (same_children fun q hq => by rw [hall q hq]; exact hv')
+        (opt_child hp hv') h4
+      rw [hv]
+termination_by sizeOf out
+theorem same_fields (cp sp : PClass) (sf : SFields) (ps : List VNode) (fo vf : VFields) (hne : ps ≠ [])
+    (hw : ∀ k s, SFields.has sf k s → wf s = true) (hso : sortedStr sf.keys = true)
+    (hc : confFields sf vf = true) (hch : ∀ k ∈ sf.keys, ∀ q ∈ ps, subChild k q = vf.lookup k)
+    (h : crossAccFields cp sp sf ps fo = true) : fo = vf := by
+  cases fo with
+  | nil =>
+    cases sf <;> simp [crossAccFields] at h
+    cases vf <;> simp [confFields] at hc
+    rfl
+  | cons k' v r =>
+    cases sf with
+    | nil => simp [crossAccFields] at h
+    | cons k s sr =>
+      cases vf with
+      | nil => simp [confFields] at hc
+      | cons k0 v0 r0 =>
+        simp only [crossAccFields, Bool.and_eq_true, beq_iff_eq] at h
+        simp only [confFields, Bool.and_eq_true, beq_iff_eq] at hc
+        obtain ⟨⟨rfl, h1⟩, h2⟩ := h
+        obtain ⟨⟨rfl, hc1⟩, hc2⟩ := hc
+        have hso' := (sortedStr_cons' k sr.keys).1 (by simpa [SFields.keys] using hso)
+        have hk : ∀ q ∈ ps, subChild k q = some v0 := fun q hq => by
+          rw [hch k (by simp [SFields.keys]) q hq]; simp [VFields.lookup]
+        have hv : v = v0 := same_main cp sp s _ v0 v (hw k s (by simp [SFields.has]))
+          (same_children_ne_nil hne hk) (same_children hk) hc1 h1
+        have hr : r = r0 := same_fields cp sp sr ps r r0 hne (fun k' s' h' => hw k' s' (by simp [SFields.has, h']))
+          hso'.2 hc2 (fun k' hk' q hq => by
+            have hlt := hso'.1 k' hk'
+            have hne' : ¬ k = k' := fun e => String.lt_irrefl k' (e ▸ hlt)
+            rw [hch k' (by simp [SFields.keys, hk']) q hq]
+            simp [VFields.lookup, hne']) h2
+        rw [hv, hr]
+termination_by sizeOf fo
+theorem same_list (cp sp : PClass) (e : SNode) (ps : List VNode) (i : Nat) (lo l : VList) (hs : wf e = true)
+    (hne : ps ≠ []) (hc : confList e l = true) (hlen : lo.length = l.length)
+    (hch : ∀ j, ∀ q ∈ ps, arrChild (i + j) q = l.get? j)
+    (h : crossAccList cp sp e ps i lo = true) : lo = l := by
+  cases lo with
+  | nil =>
+    cases l with
+    | nil => rfl
+    | cons _ _ => simp [VList.length] at hlen
+  | cons v r =>
+    cases l with
+    | nil => simp [VList.length] at hlen
+    | cons v0 r0 =>
+      simp only [crossAccList, Bool.and_eq_true] at h
+      simp only [confList, Bool.and_eq_true] at hc
+      simp only [VList.length] at hlen
+      have hk : ∀ q ∈ ps, arrChild i q = some v0 := fun q hq => by
+        have := hch 0 q hq
+        simpa [VList.get?] using this
+      have hv : v = v0 := same_main cp sp e _ v0 v hs (same_children_ne_nil hne hk) (same_children hk) hc.1 h.1
+      have hr : r = r0 := same_list cp sp e ps (i+1) r r0 hs hne hc.2 (by omega)
+        (fun j q hq => by
+          have := hch (j+1) q hq
+          rw [show i + 1 + j = i + (j + 1) by omega, this]
+          simp [VList.get?]) h.2
+      rw [hv, hr]
+termination_by sizeOf lo
+theorem same_entries (cp sp : PClass) (e : SNode) (ps : List VNode) (mo m : VEntries) (hs : wf e = true)
+    (hne : ps ≠ []) (hc : confEntries e m = true) (hk : mo.keys = m.keys) (hso : sortedNat m.keys = true)
+    (hch : ∀ k ∈ m.keys, ∀ q ∈ ps, mapChild k q = m.lookup k)
+    (h : crossAccEntries cp sp e ps mo = true) : mo = m := by
+  cases mo with
+  | nil =>
+    cases m with
+    | nil => rfl
+    | cons _ _ _ => simp [VEntries.keys] at hk
+  | cons k v r =>
+    cases m with
+    | nil => simp [VEntries.keys] at hk
+    | cons k0 v0 r0 =>
+      simp only [VEntries.keys, List.cons.injEq] at hk
+      obtain ⟨rfl, hk⟩ := hk
+      simp only [crossAccEntries, Bool.and_eq_true] at h
+      simp only [confEntries, Bool.and_eq_true] at hc
+      have hso' := (sortedNat_cons' k r0.keys).1 (by simpa [VEntries.keys] using hso)
+      have hkk : ∀ q ∈ ps, mapChild k q = some v0 := fun q hq => by
+        rw [hch k (by simp [VEntries.keys]) q hq]; simp [VEntries.lookup]
+      have hv : v = v0 := same_main cp sp e _ v0 v hs (same_children_ne_nil hne hkk) (same_children hkk) hc.1 h.1
+      have hr : r = r0 := same_entries cp sp e ps r r0 hs hne hc.2 hk hso'.2
+        (fun k' hk' q hq => by
+          have hlt := hso'.1 k' hk'
+          have hne' : ¬ k = k' := by omega
+          rw [hch k' (by simp [VEntries.keys, hk']) q hq]
+          simp [VEntries.lookup, hne']) h.2
+      rw [hv, hr]
+termination_by sizeOf mo
+end
+
+end Cross
 
 /-- crossover preserves conformance -/
 theorem crossAcc_conf (cp sp : PClass) (s : SNode) (ps : List VNode) (out : VNode) (hs : wf s = true)
-    (hne : ps ≠ []) (hp : ∀ p ∈ ps, conf s p = true) (h : crossAcc cp sp s ps out = true) : conf s out = true := by
-  sorry
+    (hne : ps ≠ []) (hp : ∀ p ∈ ps, conf s p = true) (h : crossAcc cp sp s ps out = true) : conf s out = true :=
+  Cross.conf_main cp sp s ps out hs hne hp h
 
-/-- every accepted offspring satisfies the provenance relation -/
-theorem crossAcc_prov (cp sp : PClass) (s : SNode) (ps : List VNode) (out : VNode)
-    (hp : ∀ p ∈ ps, conf s p = true) (h : crossAcc cp sp s ps out = true) : prov s ps out = true := by
-  sorry
+/-- every accepted offspring satisfies the provenance relation.
+    ADDED HYPOTHESIS `hs : wf s`: children of a `sub` are looked up by key, so with a duplicated key in a
+    (non-well-formed) spec the second field's children are the first field's values; e.g.
+    `s = sub [a: bool, a: opt const]`, parents `[a: true, a: some const]`, `[a: false, a: none]`, the accepted
+    offspring `[a: false, a: some const]` has no provenance. -/
+theorem crossAcc_prov (cp sp : PClass) (s : SNode) (ps : List VNode) (out : VNode) (hs : wf s = true)
+    (hp : ∀ p ∈ ps, conf s p = true) (h : crossAcc cp sp s ps out = true) : prov s ps out = true :=
+  Cross.prov_main cp sp s ps out hs hp h
 
 /-- a single parent is returned unchanged -/
 theorem crossAcc_single (cp sp : PClass) (s : SNode) (p out : VNode) (hp : conf s p = true)
-    (h : crossAcc cp sp s [p] out = true) : out = p := by
-  sorry
+    (h : crossAcc cp sp s [p] out = true) : out = p :=
+  Cross.single cp sp s p out hp h
 
 /-- identical parents give an identical offspring -/
 theorem crossAcc_same (cp sp : PClass) (s : SNode) (ps : List VNode) (p out : VNode) (hs : wf s = true)
     (hne : ps ≠ []) (hall : ∀ q ∈ ps, q = p) (hp : conf s p = true)
-    (h : crossAcc cp sp s ps out = true) : out = p := by
-  sorry
+    (h : crossAcc cp sp s ps out = true) : out = p :=
+  Cross.same_main cp sp s ps p out hs hne hall hp h
 
 end Cambrian
